@@ -36,10 +36,28 @@
 (* the decode key is the only place where an altered key id is noticed.    *)
 (* A key id can be altered to garbage ("keyid": bit flips) or to a value   *)
 (* that IS the id of another key in the system (classes KidT below).       *)
+(*                                                                         *)
+(* Several endpoints per participant (second strengthening round).  A      *)
+(* plugin may own a SECOND endpoint of the same kind and with the same     *)
+(* attributes as its first one, matched with the same remote endpoints.    *)
+(* ENTITY ids: the participant of plugin p and its first endpoint are      *)
+(* written p, its second endpoint p + 10 (PluginOf / Ep2).  Everything     *)
+(* below that speaks about a receiver (`r`, `held`, the members of c.to,   *)
+(* the q of RS(p,q)) speaks about an ENTITY of the level under test:       *)
+(* a participant at message level, an endpoint at submessage and payload   *)
+(* level.  Every (sender, receiving entity) pair has a receiver-specific   *)
+(* key of its own, so a submessage may carry a receiver-specific MAC for   *)
+(* one endpoint of a participant and none for its sibling - although both  *)
+(* hold the same sender key and the real decode_submessage is ONE call for *)
+(* the whole receiving participant that answers with the list of local     *)
+(* endpoints the submessage is released to.                                *)
 (***************************************************************************)
 EXTENDS Integers, Sequences, FiniteSets
 
 P == {1, 2, 3}
+\* entity ids: plugin p's participant and first endpoint = p, its second endpoint = p + 10
+PluginOf(x) == x % 10
+Ep2(p) == p + 10
 
 \* key id overwritten with the id of ANOTHER existing key (or the reserved id 0):
 \*   keyid_sib   the sender's key of the sibling endpoint level (submessage <-> payload)
@@ -64,7 +82,7 @@ HasRS(cfg) == cfg.oa /\ cfg.lvl # "payload"
 
 \* ---- key inventory ----
 \* senders are writers in direction w2r, readers (ACKNACK) in direction r2w
-IsWriter(cfg, snd, p) == (p \in snd) = (cfg.dir = "w2r")
+IsWriter(cfg, snd, p) == (PluginOf(p) \in snd) = (cfg.dir = "w2r")
 \* register_local_datawriter: kinds differ => Two key materials; readers and participants: One.
 \* (at message level the endpoints get the same kind at both endpoint levels)
 TwoKeys(cfg, snd, p) == cfg.lvl # "msg" /\ cfg.other # "same" /\ IsWriter(cfg, snd, p)
@@ -72,7 +90,7 @@ Slot(cfg) == CASE cfg.lvl = "msg" -> "part" [] cfg.lvl = "submsg" -> "sub" [] OT
 SibSlot(cfg) == IF cfg.lvl = "submsg" THEN "pay" ELSE "sub"
 EntSlot(cfg) == IF cfg.lvl = "msg" THEN "sub" ELSE "part"
 \* the id of the key material p uses at `slot`
-Kid(cfg, snd, p, slot) == IF slot = "part" THEN <<p, "part", 0>>
+Kid(cfg, snd, p, slot) == IF slot = "part" THEN <<PluginOf(p), "part", 0>>
                           ELSE IF TwoKeys(cfg, snd, p) THEN <<p, slot, 0>>
                           ELSE <<p, "sub", 0>>
 RsKid(p, q) == <<p, "rs", q>>
@@ -109,7 +127,7 @@ Tampers(cfg, snd, loc, c, r, s, held) ==
     \cup (IF HasRS(cfg) /\ held \in c.to /\ Cardinality(c.to) > 1 THEN {"rkid_swap"} ELSE {})
     \cup (IF TwoKeys(cfg, snd, c.p) THEN {"keyid_sib"} ELSE {})
     \cup (IF PeerOf(snd, c, s) \in loc THEN {"keyid_peer"} ELSE {})
-    \cup (IF r \in loc THEN {"keyid_own"} ELSE {})
+    \cup (IF PluginOf(r) \in loc THEN {"keyid_own"} ELSE {})
 
 (***************************************************************************)
 (* The property, as a predicate: r, believing the bytes to come from s and *)
@@ -135,6 +153,17 @@ Authorized(cfg, c, s, held, t) ==
 (* `loose` = TRUE is a deliberately wrong lookup (the header key id may be *)
 (* ANY id of the sender's key materials under that handle) used only by    *)
 (* MC_CryptoKeys_neg.cfg to show that the invariants notice this class.    *)
+(* decode_submessage collects the decode materials of ALL local endpoints  *)
+(* of the receiving participant that are matched with the sender and whose *)
+(* key id is the one in the header (the candidates), validates the         *)
+(* receiver-specific MAC once PER CANDIDATE and releases the submessage to *)
+(* exactly those local endpoints whose candidate passed; the outcome for   *)
+(* entity r is "plain" iff r is in that list.  So the decision for r uses  *)
+(* r's own decode material only.  `sibok` = some OTHER endpoint of r's     *)
+(* participant passes all checks on the same untouched bytes; it is used   *)
+(* only with `looselist` = TRUE, a deliberately wrong release rule (once   *)
+(* one candidate passed, the siblings are released unchecked), negative    *)
+(* control MC_CryptoKeys_neg2.cfg.                                         *)
 (***************************************************************************)
 \* ids of all key materials r stores under the handle it has for s (the token sequence of s)
 StoredKids(cfg, snd, s) == IF IsMsg(cfg) THEN {Kid(cfg, snd, s, "part")}
@@ -152,13 +181,14 @@ RsMacOk(cfg, c, s, held, t) ==
        /\ t \notin {"rkid_mine", "drop_mine"}      \* ... entry still there under that id
        /\ t \notin {"rmac_mine", "rkid_swap", "session", "iv", "cmac", "swap_hdr"}  \* validate_mac(key, iv, common_mac, mac)
 
-ImplDecode(loose, cfg, snd, c, r, s, held, epinfo, t) ==
+ImplDecode(loose, looselist, sibok, cfg, snd, c, r, s, held, epinfo, t) ==
   IF DevS10(cfg, c) THEN "nodata"                                      \* footer taken from the padded end
   ELSE IF t \in {"kind", "rcount", "hdr"} THEN "nodata"                 \* header / footer / InfoSource checks
   ELSE IF cfg.lvl = "submsg" /\ ~epinfo THEN "nodata"                  \* no registered entities for the sender
   ELSE IF held = 0 THEN "nodata"                                       \* no decode key material for the handle
   ELSE IF ~KidOk(loose, cfg, snd, c, r, s, held, t) THEN "nodata"      \* sender_key_id filter / KeysNotFound
-  ELSE IF ~RsMacOk(cfg, c, s, held, t) THEN "nodata"                   \* ValidatingReceiverSpecificMACFailed
+  ELSE IF ~RsMacOk(cfg, c, s, held, t)                                 \* candidate filtered out of the list /
+          /\ ~(looselist /\ sibok /\ cfg.lvl = "submsg" /\ t = "none") THEN "nodata"   \* ValidatingReceiverSpecificMACFailed
   ELSE IF ~CommonMacOk(c, s, t) THEN "nodata"                          \* validate_mac / decrypt
   ELSE "plain"
 =============================================================================
